@@ -80,6 +80,11 @@ def build_probes(all_specs):
     for kind, q in extra:
         lst = probes.setdefault(kind, [])
         lst.append({'query': q, 'ref': callsim.DEFAULT_DT_REF, 'key': 'probe|%s|%d' % (kind, len(lst))})
+    # option-sensitive English inputs (established against the pinned tree: they separate options 0,1,2,3 and 4)
+    for q, r in [('schedule a meeting from 5pm to 7pm tomorrow', '2016-11-07T00:00:00'), ("I'm blocked for the day", '2016-11-07T16:12:00'),
+                 ('Change my meeting from 9am to 11am', '2016-11-07T00:00:00'), ('I left yesterday at 12', '2017-12-18T00:00:00')]:
+        lst = probes.setdefault('DateTime', [])
+        lst.append({'query': q, 'ref': r, 'key': 'probe|DateTime|%d' % len(lst)})
     return probes
 
 
